@@ -47,7 +47,7 @@ theorem logical_total (comp : List Bytes) (D : Dec) (z : Bool) (es : List Bytes)
   | false => simp [logical, openPre, hfr, hzf rfl]
   | true =>
     cases es with
-    | nil => simp [logical, openPre, hfr, flatten_length, totalLen]
+    | nil => simp [logical, openPre, hfr, totalLen]
     | cons x xs =>
       simp only [logical, openPre, if_true, totalLen_append, List.length_nil, Nat.add_zero]
       simp only [totalLen, List.map_cons, List.sum_cons, List.length_append, hfr]
@@ -57,7 +57,7 @@ theorem logical_total (comp : List Bytes) (D : Dec) (z : Bool) (es : List Bytes)
 theorem bodyOf_false (es : List Bytes) : bodyOf es false = sized es := by simp [bodyOf]
 
 theorem bodyOf_snoc_true (es : List Bytes) (x : Bytes) : bodyOf (es ++ [x]) true = sized es ++ x := by
-  simp [bodyOf, List.dropLast_concat, List.getLastD_eq_getLast?]
+  simp [bodyOf, List.getLastD_eq_getLast?]
 
 theorem mkPkt_payload (c : EncCfg) (st : St) (D : Dec) (comp es : List Bytes) (om y : Bool) (h : Sim st D comp es om) :
     (mkPkt c st.cur y).payload = hdrByte st.cur.z y (wOf es om) false :: bodyOf es om := by
